@@ -300,7 +300,7 @@ class TemplateExecutor(Executor):
         return super().s_For(s2, fr)
 
     def compare(self, op, a, b, node=None):
-        if isinstance(op, (ast.In, ast.NotIn)) and (isinstance(b, SV) and b.ty.kind == "val" or isinstance(a, (OpaqueValue, type)) ):
+        if isinstance(op, (ast.In, ast.NotIn)) and (isinstance(b, SV) and b.ty.kind == "val" or isinstance(a, (OpaqueValue, type)) and not isinstance(b, (tuple, list))):
             r = SV(uf("contains", [VAL_SORT, VAL_SORT], z3.BoolSort())(self.to_val(b).z, self.to_val(a).z), BOOL)
             return SV(z3.Not(r.z), BOOL) if isinstance(op, ast.NotIn) else r
         if isinstance(op, (ast.Is, ast.IsNot)) and (isinstance(a, SV) and a.ty.kind == "val") and b is None and getattr(self.w, "val_never_none", False):
